@@ -210,6 +210,91 @@ def classify_silent(pm, alt, line_vars):
     return None
 
 
+ACCOUNT_HEAD = ("from Reduino.Actuators import Led\nfrom Reduino.Sensors import Potentiometer\nfrom Reduino.Communication import SerialMonitor\nfrom Reduino.Utils import sleep\n"
+                "led = Led(13)\npot = Potentiometer('A0')\nmon = SerialMonitor(9600)\nx = 1\nitems = [1, 2]\ndef helper(v):\n    return v + 1\n")
+# statement -> expected fate: "ir" (must leave a trace in the IR or be refused), "silent" (meaningless for the device:
+# may vanish), "refuse-or-ir" (not part of the DSL: must be refused with ValueError or translated - never dropped)
+ACCOUNT_STMTS = {
+    "device-call": ("led.on()", "ir"), "sleep": ("sleep(10)", "ir"), "assignment": ("y = x + 1", "ir"), "augmented-assignment": ("x += 2", "ir"), "tuple-assignment": ("a, b = 1, 2", "ir"),
+    "list-append": ("items.append(3)", "ir"), "function-call-statement": ("helper(2)", "ir"), "serial-write": ("mon.write(x)", "ir"), "nested-call-statement": ("helper(helper(1))", "ir"),
+    "if-block": ("if x > 1:\n    led.off()", "ir"), "while-block": ("while x < 3:\n    x = x + 1", "ir"), "for-range-block": ("for i in range(2):\n    led.toggle()", "ir"),
+    "try-block": ("try:\n    x = 1\nexcept Exception:\n    x = 2", "ir"),
+    "pass": ("pass", "silent"), "comment": ("# just a comment", "silent"), "blank": ("", "silent"), "string-statement": ("'a string statement'", "silent"), "print": ("print('hi')", "silent"),
+    "constant-expression": ("1 + 2", "silent"), "target-call": ("target('/dev/ttyUSB0')", "silent"), "reduino-import": ("from Reduino.Actuators import Servo", "silent"),
+    "continue": ("continue", "refuse-or-ir"), "subscript-store": ("items[0] = 5", "refuse-or-ir"), "del": ("del x", "refuse-or-ir"), "annotated-assignment": ("z: int = 5", "refuse-or-ir"),
+    "global": ("global x", "silent"), "assert": ("assert x", "refuse-or-ir"), "with-block": ("with open('f') as fh:\n    pass", "refuse-or-ir"), "class": ("class A:\n    pass", "refuse-or-ir"),
+    "raise": ("raise ValueError('x')", "refuse-or-ir"), "unknown-method": ("led.explode()", "refuse-or-ir"), "unknown-object": ("foo.bar()", "refuse-or-ir"), "starred-assignment": ("a, *b = items", "refuse-or-ir"),
+    "walrus": ("(n := 5)", "refuse-or-ir"), "two-statements-on-a-line": ("led.on(); led.off()", "refuse-or-ir"), "chained-assignment": ("p = q = 3", "refuse-or-ir"), "attribute-store": ("led.pin = 5", "refuse-or-ir"),
+    "dangling-elif": ("elif x:\n    pass", "refuse-or-ir"), "dangling-else": ("else:\n    pass", "refuse-or-ir"), "other-import": ("import os", "silent"), "nonlocal": ("nonlocal x", "refuse-or-ir"),
+    "yield": ("yield x", "refuse-or-ir"), "lambda-assignment": ("f = lambda v: v", "refuse-or-ir"),
+}
+
+
+def _account_contexts(stmt):
+    ind = lambda s_, n_: "".join(" " * n_ + l_ + "\n" for l_ in s_.split("\n"))
+    return {
+        "setup": ACCOUNT_HEAD + ind(stmt, 0) + "while True:\n    sleep(1)\n",
+        "main-loop": ACCOUNT_HEAD + "while True:\n" + ind(stmt, 4) + "    sleep(1)\n",
+        "function": ACCOUNT_HEAD + "def fn(q):\n" + ind(stmt, 4) + "    return q\nwhile True:\n    x = fn(x)\n",
+        "nested-block": ACCOUNT_HEAD + "while True:\n    if x > 0:\n" + ind(stmt, 8) + "        sleep(2)\n    sleep(1)\n",
+    }
+
+
+def _account_worker(item):
+    from .. import pe as pe_
+    label, stmt = item
+    out = {}
+    for cname, src in _account_contexts(stmt).items():
+        try:
+            _it, o = pe_.parse_source(src)
+        except AnalysisError as e:
+            out[cname] = ("error", str(e))
+            continue
+        except Exception as e:       # interpreter limits
+            out[cname] = ("error", f"{type(e).__name__}: {e}")
+            continue
+        out[cname] = ("raise", o.value) if o.kind != "return" else ("ir", repr(o.value))
+    return label, out
+
+
+def rule_account(cx, rid_prefix):
+    """every statement is accounted for - by evaluation: each statement of a corpus (DSL statements, meaningless lines, Python
+    statements outside the DSL) is placed before the main loop, in it, in a function and in a nested block; the script is
+    parsed (partial evaluation) and compared with the same script without the statement"""
+    import concurrent.futures as cf
+    pm = mod(PARSER)
+    cx.consulted(pm)
+    pf = pm.func("parse")
+    r = cx.rule(f"{rid_prefix}-DISPATCH", "every statement is accounted for: for a corpus of statements (device calls, assignments, blocks; blank/comment/pass/print/string/constant/import lines; Python statements outside the DSL such as continue, del, assert, class, raise, subscript stores, `a; b`) placed before the main loop, in it, in a function and in a nested block, parse() either refuses the script with ValueError or the IR differs from the IR of the script without the statement - only the meaningless kinds may vanish", floor=40)
+    items = [("<none>", "")] + [(k, v[0]) for k, v in ACCOUNT_STMTS.items()]
+    try:
+        with cf.ProcessPoolExecutor(max_workers=min(8, os.cpu_count() or 2)) as ex:
+            results = dict(ex.map(_account_worker, items))
+    except Exception:
+        results = dict(_account_worker(it_) for it_ in items)
+    base = results["<none>"]
+    for cname, (kind, val) in base.items():
+        if kind != "ir":
+            raise AnalysisError(f"the accounting script without a statement is not accepted in context {cname}: {val}")
+    for label, (stmt, fate) in ACCOUNT_STMTS.items():
+        dropped, internal = [], []
+        for cname, (kind, val) in results[label].items():
+            if kind == "error":
+                raise AnalysisError(f"parse() left the evaluable subset on `{stmt.splitlines()[0] if stmt else ''}` ({cname}): {val}")
+            if kind == "raise":
+                if val != "ValueError":
+                    internal.append((cname, val))
+                continue
+            if val == base[cname][1]:
+                dropped.append(cname)
+        first = stmt.split("\n")[0]
+        if fate == "silent":
+            r.check(not internal, f"account[{label}]", (pm, pf), f"`{first}` raises {internal}", sample=f"{label}: may vanish")
+            continue
+        r.check(not dropped and not internal, f"account[{label}]", (pm, pf), f"`{first}` " + (f"vanishes without a diagnostic when written {', '.join(dropped)}: the IR is the IR of the script without it" if dropped else f"raises {internal}") + (" (it must leave a trace in the IR or be refused with ValueError)" if fate == "ir" else " (a statement outside the DSL must be refused with ValueError, not dropped)"), sample=f"{label}: accounted")
+    return r
+
+
 def rule_dispatch(cx, rid_prefix):
     pm = mod(PARSER)
     cx.consulted(pm)
@@ -582,7 +667,7 @@ def run(cx):
         "scope-sharing of the name sets that guard arms, shadowing order of arms; regex acceptance of spacing "
         "variants is not decided"
     )
-    rule_dispatch(cx, "C07")
+    rule_account(cx, "C07")
 
     # ---- C07-STRIP ---------------------------------------------------------------------------
     # (that a trailing comment never hides a block header or changes a statement is decided by evaluation: C07-SPACING re-writes
@@ -622,77 +707,63 @@ def run(cx):
                     r.fail("_indent_of/counts-leading-blanks", (pm, io), f"_indent_of({s!r}) = {got!r}, expected {want}")
 
     # ---- C07-LINEFLOW ------------------------------------------------------------------------
-    r = cx.rule("C07-LINEFLOW", "the list of lines dispatched by parse() is src.splitlines() itself: no pre-pass rewrites, joins or drops physical lines unless it tracks brackets with the tokenizer", floor=2)
+    # decided by evaluation: what stands inside string literals (brackets, #, backslashes, quotes, colons) never changes how
+    # the script is cut into statements; a parenthesised statement spread over several physical lines is the known limitation;
+    # a function specialised for two call signatures is parsed from the same block both times
+    r = cx.rule("C07-LINEFLOW", "the statement structure follows the lines of the script: string contents (brackets, #, backslash, quotes, colon, `while True:` inside a string) never move or drop a statement; a function re-parsed for a second call signature has the same body structure as the first (comments, blank lines and nested blocks included); a parenthesised statement spread over several physical lines is translated or refused", floor=12)
     pf = pm.func("parse")
-    ploc = Locals(pf)
-    ldefs = ploc.defs.get("lines", [])
-    ok_lines = len(ldefs) == 1 and isinstance(ldefs[0], ast.Call) and isinstance(ldefs[0].func, ast.Attribute) and ldefs[0].func.attr == "splitlines" and norm(ldefs[0].func.value) == "src"
-    if not ok_lines and len(ldefs) == 1 and isinstance(ldefs[0], ast.Call):
-        # a pre-pass: accept only tokenizer/ast based joiners
-        callee = call_name(ldefs[0])
-        pre = pm.funcs.get(callee or "")
-        tok = pre is not None and any(isinstance(c, ast.Call) and (call_name(c) or "").startswith(("tokenize.", "ast.parse")) for c in ast.walk(pre))
-        r.check(tok, f"parse/line-prepass[{callee}]", (pm, ldefs[0]), f"parse() rewrites the physical lines through {callee}() which does not use the tokenizer: brackets/backslashes inside string literals would glue or drop statements")
+    from .. import pe as _pe
+    head_ = "from Reduino.Communication import SerialMonitor\nfrom Reduino.Actuators import Led\nmon = SerialMonitor(9600)\nled = Led(13)\nx = 1\n"
+    for label, text in (("open-bracket", "a ( b"), ("close-bracket", "a ) b"), ("square", "[x"), ("brace", "{"), ("hash", "a # b"), ("backslash", "a \\\\ b"), ("colon", "while True:"), ("quote", "it's"), ("keyword", "def f():"), ("semicolon", "a; b"), ("triple", "abc")):
+        lit_ = repr(text)
+        src = head_ + f"mon.write({lit_})\nled.on()\nwhile True:\n    mon.write({lit_})\n    led.off()\n"
+        try:
+            _it, out = _pe.parse_source(src)
+        except dl.Unsupported as e:
+            raise AnalysisError(f"parse() left the evaluable subset on a string-content script: {e}")
+        if out.kind != "return":
+            r.check(out.value == "ValueError", f"lines/string-content[{label}]", (pm, pf), f"a string containing {text!r}: parse() raises {out.value}")
+            continue
+        kinds_s = [type(n_).__name__ for n_ in out.value.setup_body if not type(n_).__name__.endswith("Decl")]
+        kinds_l = [type(n_).__name__ for n_ in out.value.loop_body]
+        r.check(kinds_s == ["SerialWrite", "LedOn"] and kinds_l == ["SerialWrite", "LedOff"], f"lines/string-content[{label}]", (pm, pf), f"`mon.write({lit_})` followed by a device call, before and inside the main loop: setup statements {kinds_s}, loop statements {kinds_l}; the text inside the string changed how the script is cut into statements", sample=f"string {text!r}")
+    # multi-line statement (known limitation)
+    src = head_ + "led.blink(\n    100,\n    3)\nwhile True:\n    x = x + 1\n"
+    _it, out = _pe.parse_source(src)
+    okm = out.kind != "return" or any(type(n_).__name__ == "LedBlink" for n_ in out.value.setup_body)
+    r.check(okm, "parse/physical-lines", (pm, pf), "statement boundaries are physical lines: `led.blink(` / `100,` / `3)` spread over three lines is accepted and the call vanishes (parenthesised multi-line statements and docstring bodies are dispatched line by line)")
+    # re-specialisation parses the same block
+    body_ = "    # leading comment\n    w = v\n\n    if w > 1:\n        # inner\n        w = w - 1\n    else:\n        w = w + 1\n    return w\n"
+    src = "def shape(v):\n" + body_ + "while True:\n    a = shape(2)\n    b = shape(2.5)\n"
+    _it, out = _pe.parse_source(src)
+    if out.kind != "return":
+        r.fail("_parse_function/kept-source=block", (pm, pf), f"a function called with two signatures is rejected with {out.value}")
     else:
-        r.check(ok_lines, "parse/lines=src.splitlines()", (pm, pf), "the dispatched line list is not src.splitlines()")
-    r.check(not ploc.rebound("src"), "parse/src-not-rewritten", (pm, pf), "parse() rewrites its source text before splitting it")
-    # the known limitation: physical, not logical lines
-    r.fail("parse/physical-lines", (pm, ldefs[0] if ldefs else pf), "statement boundaries are physical lines (src.splitlines()): parenthesised multi-line statements and docstring bodies are dispatched line by line")
-
-    # the function text kept for later re-specialisation (another call signature) is the block itself: same lines, same
-    # indentation - otherwise the second overload is parsed from a different layout than the first
-    pf_ = pm.func("_parse_function")
-    stores_ = [n for n in walk_local(pf_) if isinstance(n, ast.Assign) and isinstance(n.targets[0], ast.Subscript) and "function_sources" in norm(n.targets[0])]
-    if len(stores_) != 1:
-        raise AnalysisError("_parse_function: the store into ctx['function_sources'] was not recognised")
-    val_ = stores_[0].value
-    kept = val_.elts[1] if isinstance(val_, ast.Tuple) and len(val_.elts) == 2 else None
-    kept_src = Locals(pf_).resolve(kept) if kept is not None else None
-    ok_keep = kept_src is not None and norm(kept_src) in ("list(block)", "block", "block[:]", "tuple(block)", "block.copy()")
-    r.check(ok_keep, "_parse_function/kept-source=block", (pm, stores_[0]), f"the lines kept for re-parsing are `{norm(kept_src) if kept_src is not None else '?'}`, not the function's own block: stripped or filtered lines lose the indentation that decides block structure, so another overload of the same def gets different control flow")
+        def skel(nodes):
+            return [(type(n_).__name__, [skel(getattr(b_, "body", [])) for b_ in getattr(n_, "branches", [])], skel(getattr(n_, "else_body", None) or []), skel(getattr(n_, "body", None) or []) if not hasattr(n_, "branches") else []) for n_ in nodes]
+        sk = [skel(list(f_.body)) for f_ in out.value.functions if f_.name == "shape"]
+        r.check(len(sk) == 2 and sk[0] == sk[1], "_parse_function/kept-source=block", (pm, pf), f"`shape` specialised for int and float has body structures {sk}: the second overload was parsed from a different text than the first")
 
     # ---- C07-GUARD-SHARED --------------------------------------------------------------------
-    r = cx.rule("C07-GUARD-SHARED", "a name set that guards a fall-through arm is created in every scope's context up front (parse()'s ctx literal or the dispatcher's setdefault prologue), so scopes copied earlier (function bodies, branches) see later declarations", floor=15)
-    psl = pm.func("_parse_simple_lines")
-    loop = find_dispatch_loop(pm, psl, "snippet")
-    prologue = {}
-    for st in psl.body:
-        if st is loop:
-            break
-        if isinstance(st, ast.Assign) and isinstance(st.value, ast.Call) and isinstance(st.value.func, ast.Attribute) and st.value.func.attr == "setdefault" and norm(st.value.func.value) == "ctx" and isinstance(st.targets[0], ast.Name):
-            prologue[st.targets[0].id] = lit.try_ev(st.value.args[0])
-    ctx_lit = Locals(pf).defs.get("ctx", [None])[0]
-    root_keys = {lit.try_ev(k) for k in ctx_lit.keys} if isinstance(ctx_lit, ast.Dict) else set()
-    shared_names = set(prologue)
-    guard_tests = []
-    lb = loop.body
-    for i, st in enumerate(lb[:-1]):
-        if isinstance(st, ast.Assign) and isinstance(st.value, ast.Call) and isinstance(st.value.func, ast.Attribute) and st.value.func.attr == "match" and isinstance(lb[i + 1], ast.If):
-            arm = lb[i + 1]
-            guard_tests.append(arm.test)
-            for ch in arm.body:
-                if isinstance(ch, ast.If):
-                    guard_tests.append(ch.test)
-    for n in [c for t in guard_tests for c in ast.walk(t)]:
-        if isinstance(n, ast.Compare) and len(n.ops) == 1 and isinstance(n.ops[0], (ast.In, ast.NotIn)):
-            container = n.comparators[0]
-            cn = norm(container)
-            # the guarded value must be the receiver captured by the arm's regex
-            left = norm(n.left)
-            if left not in ("name", "owner", "m.group(1)"):
-                continue
-            src_ok = False
-            if isinstance(container, ast.Name):
-                if container.id in shared_names:
-                    src_ok = True
-                else:
-                    ds = Locals(psl).defs.get(container.id, [])
-                    for d in ds:
-                        if isinstance(d, ast.Call) and isinstance(d.func, ast.Attribute) and d.func.attr in ("get", "setdefault") and d.args and lit.try_ev(d.args[0]) in root_keys:
-                            src_ok = True
-            elif isinstance(container, ast.Call) and isinstance(container.func, ast.Attribute) and container.func.attr in ("get", "setdefault") and container.args:
-                src_ok = lit.try_ev(container.args[0]) in root_keys
-            r.check(src_ok, f"guard[{cn[:40]}]/scope-shared", (pm, n), f"`{norm(n)}` guards a fall-through arm with a set that is created lazily: scopes snapshotted before the first declaration (a def above the declaration, a branch) never see it and the statement is silently ignored", sample=f"guard {cn[:40]}")
+    # decided by evaluation: a helper function may be defined above the declaration of the device it uses (Python resolves the
+    # name when the function runs); the call inside it must be bound to the device kind the name is declared with
+    r = cx.rule("C07-GUARD-SHARED", "a device call inside a helper function is translated the same whether the def stands above or below the device declaration (the name is resolved when the function runs): for every device kind the function body parsed from `def act(): dev.method()` / `dev = Device(...)` equals the body parsed with the declaration first - a call on a declared device never disappears or turns into another device's command", floor=9)
+    from .. import bindeval as _be
+    for dev_, decl_, call_ in (("Led", "dev = Led(13)", "dev.on()"), ("Servo", "dev = Servo(9)", "dev.write(90)"), ("Buzzer", "dev = Buzzer(8)", "dev.stop()"), ("LCD", "dev = LCD(i2c_addr=0x27)", "dev.clear()"),
+                               ("Potentiometer", "dev = Potentiometer('A0')", "x = dev.read()"), ("Button", "dev = Button(7)", "x = dev.is_pressed()"), ("RGBLed", "dev = RGBLed(9, 10, 11)", "dev.off()"),
+                               ("DCMotor", "dev = DCMotor(2, 4, 9)", "dev.stop()"), ("SerialMonitor", "dev = SerialMonitor(9600)", "dev.write(1)")):
+        before = _be.IMPORTS + f"def act():\n    {call_}\n{decl_}\nwhile True:\n    act()\n"
+        after = _be.IMPORTS + f"{decl_}\ndef act():\n    {call_}\nwhile True:\n    act()\n"
+        try:
+            ra, rb = _pe.parse_source(before)[1], _pe.parse_source(after)[1]
+        except dl.Unsupported as e:
+            raise AnalysisError(f"parse() left the evaluable subset on the def-before-declaration script of {dev_}: {e}")
+        if rb.kind != "return":
+            raise AnalysisError(f"the reference script (declaration first) of {dev_} is rejected with {rb.value}")
+        fb = [repr(f_.body) for f_ in rb.value.functions]
+        fa = [repr(f_.body) for f_ in ra.value.functions] if ra.kind == "return" else None
+        okd = (ra.kind != "return" and ra.value == "ValueError") or fa == fb
+        r.check(okd, f"def-before-declaration[{dev_}]", (pm, pf), f"`def act(): {call_}` written above `{decl_}`: the function body is {fa if fa is not None else 'rejected with ' + str(ra.value)}; with the declaration first it is {fb}", sample=f"{dev_}: same body")
 
     # ---- C07-KEYWORD -------------------------------------------------------------------------
     r = cx.rule("C07-KEYWORD", "every keyword/identifier a parser regex spells out as literal letters (import, from, while, target, method names ...) ends at a token boundary: what may follow cannot be an identifier character, so `important = 1` is never taken for an import and skipped", floor=70)
@@ -776,38 +847,46 @@ def run(cx):
     rule_decl_siblings(cx, "C07-DECL-SIBLINGS")
 
     # ---- C07-ARM-SHADOW ----------------------------------------------------------------------
-    r = cx.rule("C07-ARM-SHADOW", "arms whose regexes accept the same method call are ordered guarded-first: an unguarded arm never precedes a guarded arm for the same `.method(`", floor=25)
-    arms = []
-    body = loop.body
-    for i, st in enumerate(body[:-1]):
-        if isinstance(st, ast.Assign) and isinstance(st.value, ast.Call) and isinstance(st.value.func, ast.Attribute) and st.value.func.attr == "match" and isinstance(st.value.func.value, ast.Name) and isinstance(body[i + 1], ast.If):
-            rx = st.value.func.value.id
-            pat = lit.try_ev(pm.consts.get(rx), pm) if rx in pm.consts else None
-            if not isinstance(pat, lit.Regex):
-                continue
-            import re as _re
-            mm = _re.search(r"\\\.([a-z_]+)\\\(", pat.pattern)
-            method = mm.group(1) if mm else None
-            ifn = body[i + 1]
-            guarded = len(ifn.body) >= 2 and isinstance(ifn.body[1], ast.If) and any(isinstance(c, ast.Compare) and isinstance(c.ops[0], ast.In) for c in ast.walk(ifn.body[1].test)) and not any(isinstance(x, ast.Continue) for x in ifn.body if not isinstance(x, ast.If))
-            zero_arg = bool(mm) and _re.search(r"\\\(\\s\*\\\)", pat.pattern) is not None and "(.*" not in pat.pattern
-            arms.append((rx, method, guarded, zero_arg, st))
-    by_method = {}
-    for a in arms:
-        if a[1]:
-            by_method.setdefault(a[1], []).append(a)
-    for method, lst in by_method.items():
-        seen_unguarded = None
-        for rx, _m, guarded, zero_arg, st in lst:
-            if not guarded and seen_unguarded is None:
-                seen_unguarded = (rx, zero_arg)
-            elif seen_unguarded is not None:
-                # an unguarded zero-argument arm does not shadow a later arm that takes arguments... it does
-                # not match calls with arguments, so only flag when the earlier arm accepts what this one accepts
-                shadows = not seen_unguarded[1] or zero_arg
-                r.check(not shadows, f"arm[{rx}]/shadowed-by[{seen_unguarded[0]}]", (pm, st), f"arm {rx} (.{method}) can never be reached: the earlier unguarded arm {seen_unguarded[0]} accepts the same calls")
-        r.ok(f".{method}(: {[a[0] for a in lst]}")
-    cx.extra["arms"] = len(arms)
+    # decided by evaluation: a call on a declared device is bound to that device's command whatever other kinds of devices the
+    # script declares (several kinds share method names: read, write, on, off, stop, blink, fade ...)
+    r = cx.rule("C07-ARM-SHADOW", "a method call is translated by the arm of the device kind its receiver was declared with: for every device method (maximal call shape) the IR node built with every other device kind declared in the same script equals the node built with that device alone - no arm for another kind's method of the same name captures or drops the call", floor=30)
+    from .. import bindeval as _be2
+    from ..src import func_params as _fp
+    from . import c08 as _c08
+    tasks_, meta_ = [], []
+    for cls_ in sorted(_c08.HOST):
+        hfile, hcls, hfn = _c08.HOST[cls_]
+        if cls_.endswith("Decl") or hcls is None or hcls not in _be2.DECLARE:
+            continue
+        hm_ = mod(hfile)
+        cx.consulted(hm_)
+        params = _fp(hm_.func(f"{hcls}.{hfn}"))[1:]
+        if any(p_[1] in ("vararg", "kwarg") for p_ in params):
+            continue
+        posable = tuple(p_[0] for p_ in params if p_[1] in ("pos", "posonly") and p_[0] not in _c08.HOST_ONLY)
+        kws = tuple(sorted(p_[0] for p_ in params if p_[1] == "kwonly" and p_[0] not in _c08.HOST_ONLY))
+        order = tuple(p_[0] for p_ in params)
+        src_, desc_ = _be2.build(cls_, hcls, hfn, list(posable), len(posable), list(kws), list(order))
+        others = "".join(v_.replace("dev =", f"other_{k_.lower()} =", 1) + "\n" for k_, v_ in sorted(_be2.DECLARE.items()) if k_ != hcls)
+        lines_ = src_.split("\n")
+        at = next(i_ for i_, l_ in enumerate(lines_) if l_.startswith("dev = "))
+        crowded = "\n".join(lines_[:at] + others.rstrip("\n").split("\n") + lines_[at:])
+        meta_.append((cls_, hcls, hfn, src_, crowded))
+
+    def _node_of(src__, cls__):
+        _it, o_ = pe.parse_source(src__)
+        if o_.kind != "return":
+            return ("raise", o_.value)
+        found = [n_ for n_ in _be2._find(list(o_.value.setup_body) + list(o_.value.loop_body), cls__, []) if getattr(n_, "name", "dev") == "dev"]
+        stray = [type(n_).__name__ + ":" + str(getattr(n_, "name", "")) for n_ in list(o_.value.setup_body) if not type(n_).__name__.endswith("Decl") and type(n_).__name__ not in (cls__, "VarDecl", "VarAssign")]
+        return ("nodes", [repr(n_) for n_ in found], stray)
+
+    for cls_, hcls, hfn, alone, crowded in meta_:
+        try:
+            na, nc = _node_of(alone, cls_), _node_of(crowded, cls_)
+        except dl.Unsupported as e:
+            raise AnalysisError(f"parse() left the evaluable subset on the crowded script of {cls_}: {e}")
+        r.check(na == nc, f"method-owner[{hcls}.{hfn}]", (pm, pm.func("parse")), f"`dev.{hfn}(...)` on a {hcls}: alone the script yields {str(na)[:160]}; with every other device kind declared as well it yields {str(nc)[:160]}", sample=f"{hcls}.{hfn}")
 
     # ---- C07-SPACING -------------------------------------------------------------------------
     from .. import spacing
